@@ -21,6 +21,43 @@ def _validate(instance_path, schema_path):
     return pr.returncode == 0, (pr.stdout + pr.stderr)[-800:]
 
 
+def detection_selftest():
+    """A harness that has never failed has not been shown to work: run the cheapest check against a scratch COPY of the library with a
+    known property-breaking change (mask ignored in remove_pbc) and demand exit 1, a VIOLATION line and a replay file that fails on the
+    copy and passes on the unchanged tree.  /repo itself is never touched."""
+    tmp = tempfile.mkdtemp(prefix="vf_detect_")
+    ok = True
+    try:
+        shutil.copytree(os.path.join(harness.REPO, "PyMatterSim"), os.path.join(tmp, "repo", "PyMatterSim"))
+        f = os.path.join(tmp, "repo", "PyMatterSim", "utils", "pbc.py")
+        src = open(f).read()
+        needle = "np.rint(matrixij) * ppp"
+        if needle not in src:
+            print("selftest: detection self-test skipped (pbc.py no longer contains the expression the built-in mutant rewrites)")
+            return True
+        open(f, "w").write(src.replace(needle, "np.rint(matrixij)", 1))
+        out = os.path.join(tmp, "out")
+        env = dict(os.environ, VERIF_OUT=out, VERIF_REPO=os.path.join(tmp, "repo"))
+        pr = subprocess.run([os.path.join(harness.VERIF, "check"), "C02", "--tier", "quick", "--workers", "4"], env=env, capture_output=True, text=True)
+        vl = [ln for ln in pr.stdout.splitlines() if ln.startswith("VIOLATION property=C02 replay=")]
+        if pr.returncode != 1 or not vl:
+            print("SELFTEST FAIL: the built-in mutant (periodicity mask ignored) was not reported: rc=", pr.returncode, pr.stdout[-400:])
+            return False
+        rp = vl[0].split("replay=", 1)[1].strip()
+        p1 = subprocess.run([os.path.join(harness.VERIF, "check"), "--replay", rp], env=env, capture_output=True, text=True)
+        env2 = dict(os.environ, VERIF_OUT=out)
+        env2.pop("VERIF_REPO", None)
+        p2 = subprocess.run([os.path.join(harness.VERIF, "check"), "--replay", rp], env=env2, capture_output=True, text=True)
+        if p1.returncode != 1 or p2.returncode != 0:
+            print(f"SELFTEST FAIL: replay {rp}: rc on the mutated copy {p1.returncode} (want 1), on the unchanged tree {p2.returncode} (want 0)")
+            ok = False
+        else:
+            print(f"selftest: built-in mutant reported ({len(vl)} VIOLATION lines), its replay fails on the copy and passes on the unchanged tree")
+    finally:
+        shutil.rmtree(tmp, ignore_errors=True)
+    return ok
+
+
 def main():
     harness.bind()
     ok = True
@@ -58,5 +95,6 @@ def main():
                 ok = False
     finally:
         shutil.rmtree(tmp, ignore_errors=True)
+    ok = detection_selftest() and ok
     print("selftest", "ok" if ok else "FAILED")
     return 0 if ok else 3
